@@ -83,6 +83,10 @@ def opViews (st : DrvState) (j : Json) : J (DrvState × Json) :=
     [("subsets", jarr (outs.map subsetToJson)),
      ("wire", cmJson (wireAll t c outs) fun trees => jarr (trees.map fun ns => jarr (ns.map nodeToJson))),
      ("nested", cmJson (nestedAll t c outs) fun subs => jarr (subs.map fun l => jarr (l.map njToJson))),
-     ("flat", cmJson (nestedAll t c outs >>= nestedJsonToFlatAll) fun subs => jarr (subs.map fun l => jarr (l.map valToJson)))]
+     ("flat", cmJson (nestedAll t c outs >>= nestedJsonToFlatAll) fun subs => jarr (subs.map fun l => jarr (l.map valToJson))),
+     -- the decidable side conditions of C09_nested_json_to_flat_partial, per subset (null when the pass fails)
+     ("side_ok", jarr (outs.map fun o => match wireRaw t o with
+        | .ok w => Json.bool (w.sideOK o)
+        | .error _ => Json.null))]
 
 end Bufr.Drv
